@@ -87,7 +87,14 @@ def run(ctx):
     # textwrap::wrap: output = join("") of extend(wrapper.wrap(find_words(line)))
     tw = fx.body("clap_builder::output::textwrap::wrap")
     ext = tw.calls_to(r"Extend(<[^>]*>)?>?::extend$")
-    require(fx, res, "R20.1", "textwrap-wrap-source", tw, r"Extend(<[^>]*>)?>?::extend$", len(ext), 1, "textwrap::wrap no longer appends the wrapped words of each line to its output", local_callee=False)
+    # iterator form of the same loop: content.split_inclusive('\n').flat_map(|line| { wrapper.reset(); wrapper.wrap(find_words(line).collect()) }).collect()
+    fmap = [c for c in tw.calls_to(r"Iterator>?::flat_map$") if re.fullmatch(r"split_inclusive\(content,(10|'\\n')\)", expr(tw, c.args[0]))]
+    for c in fmap:
+        rets = [expr(cb, 0) for cb in closure_bodies(fx, c)[-1:]]
+        okm = bool(rets) and all(re.fullmatch(r"wrap\(.*,collect\(find_words_ascii_space\(\w+\)\)\)", r_) is not None for r_ in rets)
+        res.check(okm, "R20.1", "textwrap-wrap-source", c.where(), "split_inclusive('\\n').flat_map(|line| wrapper.wrap(find_words(line)))",
+                  "textwrap::wrap output is no longer just the wrapped words of each input line: %s" % rets)
+    require(fx, res, "R20.1", "textwrap-wrap-source", tw, r"Extend(<[^>]*>)?>?::extend$", len(ext) + len(fmap), 1, "textwrap::wrap no longer appends the wrapped words of each line to its output", local_callee=False)
     for c in ext:
         e = expr(tw, c.args[1])
         res.check(re.fullmatch(r"wrap\(.*,collect\(find_words_ascii_space\(.*split_inclusive\(content,(10|'\\n')\).*\)\)\)", e) is not None, "R20.1", "textwrap-wrap-source", c.where(),
